@@ -2,6 +2,8 @@
 // (-Wl,--wrap=ascon_trng_generate,--wrap=ascon_trng_generate_64,--wrap=ascon_trng_generate_32).
 // The wrappers serve tapes set by the plan and log what they hand out.
 #include "drv.h"
+#include <valgrind/memcheck.h>
+extern bool g_taint_tape; bool g_taint_src = false;
 extern "C" {
 struct ascon_trng_state_s;
 int __real_ascon_trng_generate(unsigned char *out, size_t outlen);
@@ -51,8 +53,8 @@ static uint64_t next_mask() {
     return v;
 }
 extern "C" {
-uint64_t __wrap_ascon_trng_generate_64(void *state) { (void)state; return next_mask(); }
-uint32_t __wrap_ascon_trng_generate_32(void *state) { (void)state; return (uint32_t)next_mask(); }
+uint64_t __wrap_ascon_trng_generate_64(void *state) { (void)state; uint64_t v = next_mask(); if (g_taint_tape) (void)VALGRIND_MAKE_MEM_UNDEFINED(&v, sizeof v); return v; }
+uint32_t __wrap_ascon_trng_generate_32(void *state) { (void)state; uint32_t v = (uint32_t)next_mask(); if (g_taint_tape) (void)VALGRIND_MAKE_MEM_UNDEFINED(&v, sizeof v); return v; }
 int __wrap_ascon_trng_generate(unsigned char *out, size_t outlen) {
     ++g_src_calls;
     if (!g_src_active) {            // no tape installed: deterministic filler, reported healthy
@@ -68,6 +70,7 @@ int __wrap_ascon_trng_generate(unsigned char *out, size_t outlen) {
     for (size_t i = 0; i < outlen; ++i) { if (i) os << ","; os << (unsigned)out[i]; }
     os << "]}";
     g_src_log += os.str();
+    if (g_taint_src) (void)VALGRIND_MAKE_MEM_UNDEFINED(out, outlen);
     return ok;
 }
 }
